@@ -66,7 +66,7 @@ Lemma Sx_postfix : forall cpp ra ta X tr,
       p2_loop cpp (comp cpp f) n (mkafter s (ra ++ X) tr, rest)) ->
   Sx cpp (ra ++ X) tr 0.
 Proof.
-  intros cpp ra ta X tr IHa Hra HX HjX Hstep f d s rest out n Hrk Hd Hn Hlen Hop Hps Hj Hnd Hq Hq14 Hq1 Hc.
+  intros cpp ra ta X tr IHa Hra HX HjX Hstep f d s rest out n Hrk Hd Hn Hlen Hop Hps Hj Hnd Hq Hq14 Hq1 Hz Hc.
   rewrite <- app_assoc in *. rewrite app_length in Hn.
   assert (HlX : 1 <= length X) by (destruct X; [contradiction|cbn; lia]).
   apply (IHa f d s (X ++ rest) out (S n)).
@@ -79,6 +79,7 @@ Proof.
   - destruct X; [contradiction|exact HjX].
   - exact Hnd.
   - intros r a0 Hr. lia.
+  - intros E. discriminate.
   - intros E. discriminate.
   - intros E. discriminate.
   - unfold cont in *. cbn [lpn] in *. rewrite Hstep; assumption.
@@ -180,6 +181,7 @@ Proof.
     - intros r a Hr. apply quiet_closer; [right; left; reflexivity|lia].
     - intros _ a. apply quiet_closer; [right; left; reflexivity|lia].
     - intros _ a. apply quiet_closer; [right; left; reflexivity|lia].
+    - intros _ _. apply quiet_closer; [right; left; reflexivity|lia].
     - unfold mkafter. apply cont_quiet; [exact Hki|]. intros r Hr. apply quiet_closer; [right; left; reflexivity|exact Hr]. }
   assert (Hb : bin_op (Some (comp cpp (S f') D_COMMA)) (sa, (l, TLB) :: ri ++ (l2, TRB) :: rest) =
                Some (mkSt (B (l, TLB) ta ti :: stk s) (rev ri ++ (l, TLB) :: bef sa) (depth s) (asgn s), (l2, TRB) :: rest)).
@@ -235,6 +237,7 @@ Proof.
     - intros r a Hr. apply quiet_closer; [left; reflexivity|lia].
     - intros _ a. apply quiet_closer; [left; reflexivity|lia].
     - intros _ a. apply quiet_closer; [left; reflexivity|lia].
+    - intros _ _. apply quiet_closer; [left; reflexivity|lia].
     - unfold mkafter. apply cont_quiet; [exact Hkg|]. intros r Hr. apply quiet_closer; [left; reflexivity|exact Hr]. }
   rewrite Hin.
   assert (Hcall : match bef sa with
